@@ -97,7 +97,7 @@ MUTANTS = [
     ("M20-nth-unbounded-add", "src/iter.rs",
      "    fn nth(&mut self, n: usize) -> Option<Self::Item> {\n        if n < self.range.end - self.range.start {",
      "    fn nth(&mut self, n: usize) -> Option<Self::Item> {\n        if self.range.start + n < self.range.end {",
-     {"C17": ("OVF", "Iterator>::nth")}),
+     {"C17": ("ITER", "Iterator>::nth")}),
     ("M21-bit-from-int-only-one-is-one", "src/bit.rs",
      "                match u {\n                    0 => Bit::Zero,\n                    _ => Bit::One\n                }",
      "                match u {\n                    1 => Bit::One,\n                    _ => Bit::Zero\n                }",
